@@ -119,8 +119,8 @@ def run(prop, tier, seed, replay=None):
             if v["k"] == "known":
                 rep.known_finding(v["dev"], devs.get(v["dev"], {}).get("what", v["dev"]))
             else:
-                rep.violation("%s PROPFIND Depth %d at node %s listed %s ; layout=%s (%s, prefix %s)" % (
-                    v["dev"], rec["depth"], rec["at"], rec["got"],
+                rep.violation("%s PROPFIND (%s) Depth %d at node %s listed %s ; layout=%s (%s, prefix %s)" % (
+                    v["dev"], rec.get("body"), rec["depth"], rec["at"], rec["got"],
                     [(n["id"], n["parent"], n["kind"]) for n in rec["tree"]], rec["frontend"], rec["prefix"]),
                     {"property": prop, "verdict": v, "layout": dict(rec, tree_full=rec["tree"])})
         rep.coverage["layouts"] = {"layouts": len(layouts), "listings_judged": len(lrecs), "states": lstat["distinct"],
